@@ -19,6 +19,7 @@ pub enum NetCmd {
     Step(Tensor, Tensor, i32),
     LayerBackward(usize, Tensor, Tensor),
     LearnTwice { data: Vec<(Tensor, Tensor)>, batch: usize, epochs1: i32, epochs2: i32 },
+    LearnTwiceVal { data: Vec<(Tensor, Tensor)>, val: Vec<(Tensor, Tensor)>, th: i32, batch: usize, epochs1: i32, epochs2: i32 },
 }
 
 #[derive(Clone, Debug)]
@@ -276,6 +277,15 @@ impl Case {
                         t.push(*epochs1 as i128);
                         t.push(*epochs2 as i128)
                     }
+                    NetCmd::LearnTwiceVal { data, val, th, batch, epochs1, epochs2 } => {
+                        t.push(11);
+                        enc_pairs(&mut t, data);
+                        enc_pairs(&mut t, val);
+                        t.push(*th as i128);
+                        push_n(&mut t, *batch);
+                        t.push(*epochs1 as i128);
+                        t.push(*epochs2 as i128)
+                    }
                     NetCmd::LayerBackward(i, x, g) => {
                         t.push(9);
                         push_n(&mut t, *i);
@@ -497,10 +507,10 @@ pub fn run_net_cmd(t: &mut Tok, n: &mut network::Network, cmd: &NetCmd) {
             enc_grads(t, &wg, &bg);
         }
         NetCmd::Learn { data, val, batch, epochs } => {
-            let xs: Vec<&Tensor> = data.iter().map(|p| &p.0).collect();
+            let xs = alias_refs(data);
             let ys: Vec<&Tensor> = data.iter().map(|p| &p.1).collect();
             let (vx, vy): (Vec<&Tensor>, Vec<&Tensor>) = match val {
-                Some((v, _)) => (v.iter().map(|p| &p.0).collect(), v.iter().map(|p| &p.1).collect()),
+                Some((v, _)) => (alias_refs(v), v.iter().map(|p| &p.1).collect()),
                 None => (vec![], vec![]),
             };
             let validation = match val {
@@ -516,7 +526,7 @@ pub fn run_net_cmd(t: &mut Tok, n: &mut network::Network, cmd: &NetCmd) {
             enc_flags(t, n);
         }
         NetCmd::Validate { data, tol, pre_training } => {
-            let xs: Vec<&Tensor> = data.iter().map(|p| &p.0).collect();
+            let xs = alias_refs(data);
             let ys: Vec<&Tensor> = data.iter().map(|p| &p.1).collect();
             if *pre_training {
                 n.verif_set_training(true);
@@ -563,6 +573,19 @@ pub fn run_net_cmd(t: &mut Tok, n: &mut network::Network, cmd: &NetCmd) {
             }
             enc_weights(t, n);
         }
+        NetCmd::LearnTwiceVal { data, val, th, batch, epochs1, epochs2 } => {
+            let xs = alias_refs(data);
+            let ys: Vec<&Tensor> = data.iter().map(|p| &p.1).collect();
+            let vx = alias_refs(val);
+            let vy: Vec<&Tensor> = val.iter().map(|p| &p.1).collect();
+            let _ = n.learn(&xs, &ys, Some((&vx, &vy, *th)), *batch, *epochs1, None);
+            let (tr, vl, va) = n.learn(&xs, &ys, Some((&vx, &vy, *th)), *batch, *epochs2, None);
+            for h in [&tr, &vl, &va] {
+                push_n(t, h.len());
+                h.iter().for_each(|e| out_f(t, *e));
+            }
+            enc_weights(t, n);
+        }
         NetCmd::LayerBackward(i, x, g) => {
             let (ig, wg, bg) = match &n.layers[*i] {
                 network::Layer::Dense(l) => {
@@ -592,6 +615,27 @@ pub fn run_net_cmd(t: &mut Tok, n: &mut network::Network, cmd: &NetCmd) {
 
 /// the `print` argument of `learn` (console reporting every p epochs) as a function of the case: the
 /// result of `learn` must not depend on it, so the model ignores it and the harness varies it
+/// the input references of a data set; consecutive samples whose inputs are bit-identical share ONE
+/// reference (callers that oversample pass the same tensor object several times)
+pub fn alias_refs(data: &[(Tensor, Tensor)]) -> Vec<&Tensor> {
+    let mut out: Vec<&Tensor> = Vec::with_capacity(data.len());
+    for (i, p) in data.iter().enumerate() {
+        if i > 0 && same_bits(&data[i - 1].0, &p.0) {
+            let prev = out[i - 1];
+            out.push(prev);
+        } else {
+            out.push(&p.0);
+        }
+    }
+    out
+}
+fn same_bits(a: &Tensor, b: &Tensor) -> bool {
+    let (mut ta, mut tb): (Tok, Tok) = (vec![], vec![]);
+    enc_tensor_out(&mut ta, a);
+    enc_tensor_out(&mut tb, b);
+    ta == tb
+}
+
 pub fn print_freq(batch: usize, epochs: i32) -> Option<i32> {
     match (batch + epochs.max(0) as usize) % 4 {
         0 => None,
